@@ -13,6 +13,7 @@ import os
 
 from ..core    import Result, digest
 from ..harness import rp, ru, rps, rpc, NullLog, NullProf, make_td
+from ..harness import FINAL_STATES
 from ..        import memzmq
 
 import radical.pilot.tmgr.scheduler.base        as m_tbase       # noqa
@@ -144,7 +145,7 @@ def gen_case(rng, sched):
             elif r < 0.9:
                 s = _PORDER[max(0, pstate[p] - 1)]             # stale
             else:
-                s = rng.choice(rps.FINAL)
+                s = rng.choice(FINAL_STATES)
             events.append(['pstate', p, s])
         elif k == 'tfinal':
             events.append(['tfinal', rng.randint(1, 4),
@@ -355,10 +356,10 @@ class Run(object):
                             {'cmd': 'update', 'arg': [{'uid': p,
                              'type': 'pilot', 'state': s}]}, who='driver')
                 cur = self.pstate.get(p)
-                if cur is None or (cur not in rps.FINAL and
-                                   (s in rps.FINAL or _PV[s] > _PV[cur])):
+                if cur is None or (cur not in FINAL_STATES and
+                                   (s in FINAL_STATES or _PV[s] > _PV[cur])):
                     self.pstate[p] = s
-                elif cur in (rps.CANCELED, rps.FAILED) and s in rps.FINAL:
+                elif cur in (rps.CANCELED, rps.FAILED) and s in FINAL_STATES:
                     self.pstate[p] = s
                 self.drain(('pstate',))
             elif k == 'tfinal':
